@@ -11,7 +11,8 @@ package xstar
 //@   lock Mutex level 20
 //@   guarded_by Mutex: closed pipes recvQLen sendQLen recvExpire recvq ttl
 //@   immutable: closeq
-//@   elem_invariant recvq: !shared(elem)
+//@   never_closed: recvq
+//@   elem_invariant recvq: elem != nil && !shared(elem)
 //@
 //@ func (*socket).RemovePipe
 //@   assumes cast("*pipe", pp.GetPrivate()).s == s
@@ -53,3 +54,7 @@ package xstar
 //@
 //@ func (*pipe).receiver
 //@   before call:close#1 assert m == nil || sel("select#2") == 1 || sel("select#2") == 2
+//@
+//@ func (*socket).OpenContext
+//@   modifies none
+//@   ensures isnil(result0) && result1 == protocol.ErrProtoOp
